@@ -59,7 +59,7 @@ def explore_all(templates, features=(), overflow=True, hash_orders=('ins',), job
             a = futs[f]; p, hit = f.result(); r = json.load(open(p)); r['cache_hit'] = hit; out[(a[2].name, a[3])] = r
     return out
 
-def validate_native(templates, results, profile='release'):
+def validate_native(templates, results, profile='release', features=()):
     """runs every record's concrete model natively; returns (n_validated, mismatches[], native_records{})"""
     tmap = {t.name: t for t in templates}
     text = []; index = {}
@@ -71,7 +71,7 @@ def validate_native(templates, results, profile='release'):
                 text.append(native.case_text(cid.replace(' ', '_'), tmap[tname], rec['values'], F0_DEFAULT, NAMED_MAX))
                 index[cid.replace(' ', '_')] = (tname, ho, pi, ri)
     if not text: return 0, [], {}
-    nat = native.run_cases(''.join(text), profile)
+    nat = native.run_cases(''.join(text), profile, features=features)
     mism = []; ok = 0
     for cid, (tname, ho, pi, ri) in index.items():
         rec = results[(tname, ho)]['paths'][pi]['records'][ri]
